@@ -278,7 +278,7 @@ def abstract_encoders():
              returns=lambda c: wire.decimal_bytes(c.st, c.value)),
         Case('decimal-refused', when=lambda c: is_dec(c.value) and neg(wire.decimal_ok(c.value)), raises=RAISES_DEC),
         Case('not-a-decimal', when=lambda c: not is_dec(c.value), raises=TypeError),
-    ], name=ENC + '.decimal', bounded_only=True,
+    ], name=ENC + '.decimal', setup=lambda c: wire.dec_facts(c.st, c.value.t) if isinstance(c.value, SOpaque) and c.value.kind == 'decimal' else None,
         doc='abstract view (scale octet + signed 32-bit unscaled value; the function itself goes through str(value): bounded stand-in)'))
     return out
 
